@@ -428,8 +428,7 @@ class PythonTypesBackend(CodeBackend):
         # As an edge case, we union omitted callers with None in the case when the object has no
         # public fields, as we still need to generate public attributes (`_field_names_` etc)
         child_omitted_callers = data_type.get_all_omitted_callers() | {None}
-        parent_omitted_callers = data_type.parent_type.get_all_omitted_callers() if \
-            data_type.parent_type else set()
+        parent_omitted_callers = get_ancestor_omitted_callers(data_type)
 
         for omitted_caller in sorted(child_omitted_callers | parent_omitted_callers, key=str):
             is_public = omitted_caller is None
@@ -870,8 +869,7 @@ class PythonTypesBackend(CodeBackend):
 
         # generate _all_fields_ for each omitted caller (and public)
         child_omitted_callers = data_type.get_all_omitted_callers()
-        parent_omitted_callers = data_type.parent_type.get_all_omitted_callers() if \
-            data_type.parent_type else set()
+        parent_omitted_callers = get_ancestor_omitted_callers(data_type)
 
         all_omitted_callers = child_omitted_callers | parent_omitted_callers
         if len(all_omitted_callers) != 0:
@@ -1075,6 +1073,20 @@ class PythonTypesBackend(CodeBackend):
             self.emit("{}._redact = bv.HashRedactor({})".format(validator_name, regex))
         elif isinstance(redactor, RedactedBlot):
             self.emit("{}._redact = bv.BlotRedactor({})".format(validator_name, regex))
+
+def get_ancestor_omitted_callers(data_type):
+    """
+    Returns the omitted callers used by the fields of every ancestor of a struct
+    or union, not only of its direct parent: the permissioned field tables of a
+    class extend those of its parent class, which in turn extend its parent's.
+    """
+    callers = set()
+    ancestor = data_type.parent_type
+    while ancestor:
+        callers |= ancestor.get_all_omitted_callers()
+        ancestor = ancestor.parent_type
+    return callers
+
 
 def generate_validator_constructor(ns, data_type):
     """
